@@ -301,7 +301,7 @@ func schedules(t *testing.T, cold bool) {
 		if rapid.IntRange(0, 3).Draw(t, "wildNames") == 0 {
 			names = genfont.NamesWild // duplicate, empty and invalid glyph names
 		}
-		c := genfont.Gen(genfont.Opts{MaxGlyphs: 24, MinGlyphs: 2, Layout: layout, Names: names}).Draw(t, "font")
+		c := genfont.Gen(genfont.Opts{MaxGlyphs: 24, MinGlyphs: 2, Layout: layout, Names: names, NilMaxp: true}).Draw(t, "font")
 		f := c.Font
 		deep := false
 		if layout == genfont.LayoutAll && rapid.IntRange(0, 2).Draw(t, "deepNesting") == 0 {
